@@ -22,7 +22,7 @@ REQS = {
     "close": (b"POST /sync HTTP/1.1\r\nHost: h\r\nConnection: close\r\nContent-Length: 2\r\n\r\nhi", [b"hi"]),
     "http10": (b"POST /sync HTTP/1.0\r\nContent-Length: 2\r\n\r\nhi", [b"hi"]),
 }
-MODES = ["raw-sync", "raw-async0", "raw-gated-headers", "raw-gated-data", "raw-respond-later", "raw-never",
+MODES = ["raw-sync", "raw-reqtimeout", "raw-async0", "raw-gated-headers", "raw-gated-data", "raw-respond-later", "raw-never",
          "app-sync", "app-async", "app-stream", "app-stream-async", "app-early-error", "app-early-finish"]
 FAULTS = ["eof", "reset", "silence", "none"]
 
@@ -78,6 +78,8 @@ def make_server_delegate(mode, rec):
             self.conn = conn
 
         def headers_received(self, start_line, headers):
+            if mode == "raw-reqtimeout":
+                self.conn.set_body_timeout(5)       # per-request timeout on a server without a global one
             if mode == "raw-async0":
                 return asyncio.sleep(0)
             if mode == "raw-gated-headers":
@@ -182,7 +184,10 @@ def execute(reqname, mode, k, fault, release_first, j=None):
     rec.respond_error = None
     with World() as w:
         sd = make_server_delegate(mode, rec)
-        server = HTTPServer(sd, idle_connection_timeout=10, body_timeout=5)
+        if mode == "raw-reqtimeout":
+            server = HTTPServer(sd, idle_connection_timeout=10)
+        else:
+            server = HTTPServer(sd, idle_connection_timeout=10, body_timeout=5)
         sock = w.socket()
         stream = IOStream(sock)
         server.handle_stream(stream, ("1.2.3.4", 1))
@@ -265,6 +270,13 @@ def judge(reqname, mode, k, fault, o, notes=None):
         if after:
             # not part of the statement (it only counts finish/close and constrains the chunks): reported as a note
             notes.append("data-after-finish-or-close")
+    if fault == "silence" and mode in ("raw-sync", "raw-reqtimeout", "raw-async0", "app-sync", "app-stream"):
+        # 30 s of silence exceed the 5 s body timeout: a delegate still waiting for its body must have been told
+        for i, ev in enumerate(o["mid"]):
+            kinds = [e[0] for e in ev]
+            if "headers" in kinds and "finish" not in kinds and "close" not in kinds:
+                bad.append(("body-timeout-not-enforced", "delegate %d got headers, the peer then sent nothing for 30 s "
+                            "(body timeout 5 s) and the delegate was not told: %r" % (i, kinds)))
     if o["shutdown_done"] is not True:
         bad.append(("close_all_connections:%s" % o["shutdown_done"], "close_all_connections() %r; connections left %d"
                     % (o["shutdown_done"], o["leftover"])))
@@ -300,7 +312,8 @@ class C05(Check):
     id = "C05"
     level = "model_checking"
     rule = ("7 requests (no body, Content-Length, chunked, pipelined pair, Expect: 100-continue, Connection: close, "
-            "HTTP/1.0) x 10 delegate modes (raw delegate: sync / awaiting / gated headers_received / gated "
+            "HTTP/1.0) x 13 delegate modes (raw delegate: sync / sync with a per-request set_body_timeout on a server without a "
+            "global one / awaiting / gated headers_received / gated "
             "data_received / response sent later / never responds; web.Application: sync, async with a flush "
             "between two gates, stream_request_body sync and async) x every byte offset k of the request at which "
             "the peer sends EOF, ECONNRESET or goes silent for 30 s (idle and body timeouts fire), with gates "
@@ -309,7 +322,8 @@ class C05(Check):
     claim = ("A recording proxy around every HTTPMessageDelegate shows, for every crash point, that a delegate "
              "which received headers gets exactly one of finish / on_connection_close, nothing afterwards, body "
              "chunks forming a prefix of (or exactly) the sent body; close_all_connections() completes and leaves "
-             "no connection or open socket; nothing is logged at ERROR.")
+             "no connection or open socket; a delegate whose body stalls beyond the (global or per-request) body "
+             "timeout is told before shutdown; nothing is logged at ERROR.")
     technique = "exhaustive crash-point enumeration (every byte offset x fault kind x delegate mode) on the real code"
     assumptions = ["the fault reaches the server at a quiescent point (after everything fed so far was processed)"]
 
